@@ -460,7 +460,6 @@ func recvName(fn *ssa.Function) string {
 	return ""
 }
 
-
 // c15R6: a request that changed a key's value keeps, in its LockData, the
 // value from before the operation (recoverData) - it is what an acknowledged
 // require-ack lock reports as "value before the operation" and what a failed
